@@ -261,37 +261,8 @@ def run(P, R):
             'forced|event_time-writers', P.unit('ProcessStatus.update_times').loc(),
             'info[event_time] is written by %s (expected add_info and update_info only): refreshed at each TICK, it '
             'makes force_state dismiss a forced event that crossed a TICK' % sorted(writers))
-    # the event given to Context.on_process_state_event is the very dictionary that is published to the other
-    # instances: the internal 'forced' marker is removed from a COPY
-    ce = P.unit('Context.on_process_state_event')
-    ev = ce.node.args.args[2].arg if len(ce.node.args.args) > 2 else 'event'
-    def blocks(stmts):
-        yield stmts
-        for st in stmts:
-            for f in ('body', 'orelse', 'finalbody'):
-                v = getattr(st, f, None)
-                if isinstance(v, list) and v and isinstance(v[0], ast.stmt) and not isinstance(st, ast.FunctionDef):
-                    yield from blocks(v)
-            for h in getattr(st, 'handlers', []) or []:
-                yield from blocks(h.body)
-    bad, n_rm = [], 0
-    for blk in blocks(ce.node.body):
-        copied = False
-        for st in blk:
-            if isinstance(st, ast.Assign) and len(st.targets) == 1 and isinstance(st.targets[0], ast.Name) and \
-                    st.targets[0].id == ev and ast.unparse(st.value) in (ev + '.copy()', 'dict(%s)' % ev, 'copy(%s)' % ev):
-                copied = True
-            rm = (isinstance(st, ast.Delete) and any(ast.unparse(t) == "%s['forced']" % ev for t in st.targets)) or \
-                (isinstance(st, ast.Expr) and isinstance(st.value, ast.Call) and call_text(st.value) == ev + '.pop'
-                 and st.value.args and isinstance(st.value.args[0], ast.Constant) and st.value.args[0].value == 'forced')
-            if rm:
-                n_rm += 1
-                if not copied:
-                    bad.append(ce.loc(st))
-    R.check(r3, n_rm >= 1 and not bad, "the internal 'forced' marker is removed from a copy of the received event",
-            'forced|payload-shared', ce.loc(), "Context.on_process_state_event removes 'forced' from the event it received "
-            "(%s) instead of from a copy: the same dictionary is sent to the other instances, which then handle the forced "
-            "event as an ordinary one" % (bad or 'no removal found'))
+    from . import shared as _shared
+    _shared.forced_payload_copied(P, R, r3)
 
     # ---------------------------------------------------------------- R4
     r4 = R.rule('R4', 'must-call under fact', 'jobs are dropped with their instance: both _common_next implementations '
@@ -340,6 +311,10 @@ def run(P, R):
     R.check(r4, ok, 'every current command targeting a lost instance is removed (loop over a copy)',
             'lost|ApplicationJobs', u.loc(), 'ApplicationJobs.on_instances_invalidation does not remove exactly the '
             'commands whose identifier is invalidated while iterating over a copy of current_jobs')
+
+    # what is REPORTED in progress: the starting / stopping jobs declared by a peer are forgotten with the peer
+    from . import shared
+    shared.modes_forgotten_when_lost(P, R, r4)
 
     # ---------------------------------------------------------------- R5
     r5 = R.rule('R5', 'normalised expression', 'wait_ticks = ceil(secs / Tick5Event.period) + minimum_ticks, fed from '
